@@ -44,6 +44,70 @@ claim('C18',
       WORLD_NOTE + 'ASCII designations only; numeric strings denote whatever int() yields.',
       technique=TECH + '; z3 regular-expression language inclusion (sequence theory) for designations')
 
-for _p in ['C04', 'C05', 'C06', 'C07', 'C08', 'C09', 'C10', 'C11', 'C12', 'C13', 'C14', 'C15',
-           'C16', 'C17', 'C19']:
+claim('C04',
+      'Bounded symbolic execution over two watchers: one or two requests from the state-changing commands, scripted before_spawn / after_spawn '
+      'outcomes, an exec failure at the n-th attempt, obedient and stubborn workers and one death injected at any kernel call; plus an inductive '
+      'step from an arbitrary quiescent watcher state for every event kind. Oracle on kernel ground truth: list / numprocesses / stats / status of '
+      'each watcher = its live children, every pid ever spawned is tracked by exactly one watcher or gone, no zombie after one check, no transient '
+      'status; also evaluated at the first quiescent point before any periodic check.',
+      WORLD_NOTE + 'One listed known finding (after_spawn veto leaves a not-yet-dead worker untracked).')
+claim('C05',
+      'Bounded symbolic execution of pairs of events (exclusive operations, overlapping non-exclusive kill / signal requests, deaths, set of '
+      'reload-class options) with stubborn, slow and obedient workers, graceful_timeout 0.3 s and 0: the virtual clock turns every time.sleep '
+      'inside a loop callback into measured blocking (50 ms bound, 5 s watchdog), all eight read-only commands are probed after every event and must be '
+      'answered without the loop turning, and every accepted waiting request must be answered within the applicable grace and warm-up delays + 0.5 s.',
+      WORLD_NOTE + 'Blocking = time.sleep in the loop thread; the cost of fork/exec itself is not charged. One listed known finding (reap_process busy-wait).')
+claim('C06',
+      'Bounded symbolic execution of the real Controller and client library: structured byte strings (fringe bytes around 18 JSON cores), JSON '
+      'documents assembled from menus for id / command / msg_type / properties over every registered command (real codec), operations that fail after '
+      'the immediate path with and without waiting, and CircusClient.call against scripted reply sequences (own / stale / foreign / id-less / duplicate / '
+      'garbage, re-sent message dict); free short byte strings as bounded bug hunting. Oracle: exactly one two-frame reply with the request id and status '
+      'ok/error (none for cast), daemon still serving.',
+      WORLD_NOTE + 'AsyncCircusClient is not driven; `status` replies carry the watcher status by documented design.')
+claim('C09',
+      'Bounded symbolic execution of histories (13-event menu) with a worker death whose WAIT STATUS IS SYMBOLIC (every exit code 0..255, every '
+      'signal 1..64 with and without core flag, decoded by arithmetic W* macros proven equal to glibc\'s) placed at any kernel call; the captured '
+      'event stream is replayed by an independent subscriber model and compared with kernel ground truth (one spawn per pid before any reap, at most '
+      'one reap, believed-alive = alive, reap exit_code = status / -signal, start/stop vs status).',
+      WORLD_NOTE, technique=TECH + '; z3 bit-vector lemma for the wait-status macros')
+claim('C10',
+      'Bounded symbolic execution: a first state-changing request (18 kinds incl. the periodic check) that succeeds, raises synchronously or fails '
+      'asynchronously after suspension (unexpected exception in a later spawn); a second and third request after g loop turns. Refused requests must be '
+      'conflict errors, change nothing (snapshot + kernel logs) and leave the slot to its owner; afterwards the slot is free and incr/decr are accepted.',
+      WORLD_NOTE + 'Daemon self-restart excluded.')
+claim('C11',
+      'Bounded symbolic execution over a generated menu of ~150 corrupted or conflicting requests (dropped fields, every JSON type per field, unknown '
+      'watcher / option / user / signal, out-of-domain values, bad option first / middle / last among good ones, valid requests during a conflict) in '
+      'three daemon states; an error reply must leave watchers, all options, statuses, pids, kernel spawn / signal logs, events and the exclusive slot unchanged '
+      '(immediately and after settling).',
+      WORLD_NOTE + 'One listed known finding (`set` applies options one by one). The solver acts as an enumerator here: all inputs are selectors.')
+claim('C12',
+      'Bounded symbolic execution of reloadconfig sequences (K<=3 edits from a 15-edit menu incl. reverts, multi-watcher edits and env values that '
+      'parse_env_dict rewrites) on a real ini file: after every reload the daemon equals what get_config + Watcher.load_from_config yield for the file, '
+      'unchanged watchers keep their pids, numprocesses-only edits keep the surviving workers, an unchanged file causes no kernel activity, removed watchers leave nothing.',
+      WORLD_NOTE + 'The parser runs outside the tracer (concrete input); "fresh start" is judged against the parser, which is C16\'s subject.')
+claim('C13',
+      'Differential bounded symbolic execution: argv / cwd / env / shell received by the simulated kernel vs an independent scanner of the documented '
+      'substitution language + shlex (token menu: both reference syntaxes in any case, values with blanks and quotes, unknown / prefix-less references, '
+      'literal $ ( ) quotes backslashes; args none / string / list; shell, copy_env, two env sets); worker ids over event histories; inductive step on '
+      '_nextwid for ANY set of used ids in [1,8] and numprocesses in [0,4].',
+      WORLD_NOTE + 'POSIX only; $WID (deprecated) excluded.')
+claim('C14',
+      'Bounded symbolic execution of the hook matrix: start with every assignment of {true,false,raise} x {ignore} to the four start-phase hooks '
+      '(quick: at most two non-default; thorough: all 1296), taking effect from the first or second call; stop / restart / signal / kill (8 request forms) '
+      'with every assignment to the stop and signal hooks; obedient and stubborn workers. Oracle: documented gating rules, SIGKILL exemption, one '
+      'hook_success/hook_failure event per call.',
+      WORLD_NOTE + 'Shares the listed finding of C04 (vetoed worker that ignores the stop signal).')
+claim('C15',
+      'Bounded symbolic execution of add / add+start / rm / rm nostop / start / stop sequences (K<=3, thorough 4) over a name pool with case variants, the '
+      'empty name, blanks and non-ASCII, and of reloadconfig edit sequences; after every reply list = status = stats = numwatchers = internal index, '
+      'case variants reach the same watcher, removed watchers are gone (workers dead unless nostop) and re-addable, add ok => listed.',
+      WORLD_NOTE)
+claim('C19',
+      'Bounded symbolic execution with UNBOUNDED symbolic integer priorities (ties included) for three watchers, numprocesses and warm-up menus, autostart '
+      'flags, five triggers (daemon start, start/restart all, start/restart by glob), a slow after_spawn hook, periodic checks landing inside the sequence and an '
+      'injected death; oracle on the kernel spawn log (priority blocks, no interleaving, per-watcher and global pacing, autostart).',
+      WORLD_NOTE)
+
+for _p in ['C07', 'C08', 'C16', 'C17']:
     na(_p, WIP)
